@@ -59,6 +59,15 @@ static void* th_ctr(void* arg)
 typedef struct { unsigned char b[MAXBLK][32]; int n; int id; } out_t;
 static out_t* outs_;
 
+/* additional entropy source for rngCreate(): exercises the "generator already exists" path
+   that feeds the source output into the shared generator state */
+static err_t src_(size_t* read, void* buf, size_t count, void* state)
+{
+	memset(buf, 0x3C, count);
+	*read = count;
+	return ERR_OK;
+}
+
 static void* th_rng(void* arg)
 {
 	out_t* o = (out_t*)arg;
@@ -70,7 +79,7 @@ static void* th_rng(void* arg)
 	for (r = 0; r < rounds; ++r)
 	{
 		int steps;
-		if (rngCreate(0, 0) != ERR_OK)
+		if (rngCreate((o->id + r) % 2 ? src_ : 0, 0) != ERR_OK)
 		{
 			__sync_fetch_and_add(&fail_, 1);
 			continue;
